@@ -170,6 +170,8 @@ fixed("F68", "C17", "aef7ba1", "C17.routes|final-target|convert_qualified_var", 
 fixed("F69", "C18", "fd781a2", "C18.prims|rust-array-index", "`a[1.0/0.0]`: after the VM was aligned with the WASM back end (F27) the Rust generator still wrote `else if !index_value.is_finite() { 0usize }` into the generated program: element 0 in the transpiled program, the last element on the VM. Found by the new generated-source rule (the statement is a string constant of the generator, parsed and evaluated); reported independently by a seeding agent from reading the code")
 for _a in ("Mem", "Delay"):
     fixed("F70", "C18", "dfac186", "C18.borrow|arm|" + _a, "`fn dsp(){ let t = (now, 2.0)  mem(t.0) }`: the generated program holds `state` (&mut of the state storage) while it evaluates the operand, and a tuple element is read through `self.memory`: rustc rejects the transpiled program with E0502 (findings/repro/F70_*.mmm; `mimium-cli --emit-rust` + `rustc --crate-type lib`)")
+for _p in ("C03", "C01"):
+    fixed("F74", _p, "21ad381", "C03.type-substitution|arm|GetArrayElem", "`fn first(xs:[a]) -> a { xs[0.0] }  fn dsp(){ let t = first([(1.0, 2.0), (3.0, 4.0)])  t.0 * 10.0 + t.1 }`: substitute_types_in_instruction had no arm for GetArrayElem / SetArrayElem, the monomorphised copy kept the element type `a` (one word): WASM returned 0.0, the VM 12.0 (findings/repro/F74_*.mmm)")
 fixed("F64", "C16", "cfb0ebe", "C16.invented-names|binder|record_update_temp", "`let record_update_temp = 7.0  let q = {r <- a = record_update_temp}` failed to type-check (the desugared record update binds a temporary of that name, and the type checker special-cases the name): the temporary is now called `record_update$temp`, which no program can spell (findings/repro/F64_*.mmm)")
 
 # ---- `|` after a parameter annotation (C16.annotation-ambiguity) ------------------------------------------------
